@@ -31,7 +31,7 @@ COMPONENTS = {
 }
 ASSUMPTIONS = ["pymalloc hands a freed block out again unless it is taken: address-derived hashes are exposed by holding blocks (robust in practice, not guaranteed by the language)"]
 EXPECTED_PROBES = ["alloc_between_hashes", "cross_class_eq", "cross_class_order", "lookup_through_twin", "sorted_heterogeneous",
-                   "basis_kinds_compared", "transitivity_triple", "vinc_vs_cov", "id_reused", "derived_from_used_object"]
+                   "basis_kinds_compared", "transitivity_triple", "vinc_vs_cov", "id_reused", "derived_from_used_object", "interrupted_hash"]
 
 
 def plan(tier):
@@ -151,7 +151,11 @@ def _gen_meshlike(rng, maxk):
     k = rng.choice([0, 1, 1, 2, 2, 2, 3, 3][: 6 + maxk - 1])
     perm = common.rand_perm(rng, k)
     r = rng.random()
-    sub = lambda: sorted(i for i in range(k + 1) if rng.random() < 0.4)  # noqa: E731
+    def sub():
+        if rng.random() < 0.12:
+            return list(range(k + 1))  # a fully shaded direction
+        return sorted(i for i in range(k + 1) if rng.random() < 0.4)
+
     if r < 0.3:
         return {"t": "mesh", "perm": perm, "shading": common.rand_shading(rng, k), "order": "given"}
     if r < 0.55:
@@ -171,6 +175,19 @@ def _twin(rng, d):
     if t in ("biv", "vinc", "cov"):
         n = len(d["perm"])
         idx, val = d.get("idx", []), d.get("val", [])
+        full = list(range(n + 1))
+        if sorted(set(idx)) == full or sorted(set(val)) == full:
+            # everything is shaded: any other adjacency lists containing a full side
+            # describe the same pattern
+            other = sorted(i for i in full if rng.random() < 0.5)
+            choice = rng.choice(["vinc", "cov", "biv_idx", "biv_val"])
+            if choice == "vinc":
+                return {"t": "vinc", "perm": d["perm"], "idx": full}
+            if choice == "cov":
+                return {"t": "cov", "perm": d["perm"], "val": full}
+            if choice == "biv_idx":
+                return {"t": "biv", "perm": d["perm"], "idx": full, "val": other}
+            return {"t": "biv", "perm": d["perm"], "idx": other, "val": full}
         r = rng.random()
         if r < 0.45:
             cells = sorted(_biv_shading(n, idx, val))
@@ -216,6 +233,17 @@ def _neighbour(rng, d):
             d[key] = [x for x in d[key] if x != v]
         else:
             d[key] = sorted(d[key] + [v])
+        return d
+    if t == "basis" and d["perms"]:
+        n = len(d["perms"][0])
+        cand = common.rand_perm(rng, n)
+        if cand not in d["perms"]:
+            d["perms"] = sorted(d["perms"][:-1] + [cand])
+        d["route"] = "args"
+        return d
+    if t == "meshbasis" and d["items"]:
+        d["items"] = [_neighbour(rng, d["items"][0])] + d["items"][1:]
+        d["route"] = "args"
         return d
     return d
 
@@ -287,6 +315,9 @@ def gen_case(rng, tier):
         r = rng.random()
         if r < 0.2:
             ops.append({"op": "hash", "obj": pick()})
+            if rng.random() < 0.15:
+                # an earlier hash computation of the same object that was interrupted part-way
+                ops.insert(len(ops) - 1, {"op": "interrupted_hash", "obj": ops[-1]["obj"], "at": rng.randint(1, 12)})
         elif r < 0.3:
             ops.append({"op": "insert", "obj": pick(), "cont": rng.choice(["set", "dict"])})
         elif r < 0.42:
@@ -461,6 +492,18 @@ def execute(case):
             h = check_hash(op["obj"], "hash op")
             hist.log.add("hash", idx, op["obj"], h)
             abst.append(("hash", _cls(objs[op["obj"]])))
+        elif kind == "interrupted_hash":
+            import os  # pylint: disable=import-outside-toplevel
+
+            i = op["obj"]
+            status, _r, _n = histsim.run_interruptible(lambda o=objs[i]: hash(o), op["at"],
+                                                       [os.path.join(core.repo_dir(), "permuta") + os.sep])
+            if status == "interrupted":
+                out.fault("interrupted_call")
+                out.probe("interrupted_hash")
+            else:
+                check_hash(i, "hash op")
+            hist.log.add("interrupted_hash", idx, status)
         elif kind == "insert":
             i = op["obj"]
             check_hash(i, "insert")
